@@ -85,6 +85,30 @@ def gen_cases(tier, seed):
                       'mode': mode, 'timeout': 90,
                       'mseed': r.randrange(1 << 30)})
         k += 1
+    # (a2) four indices of one space on tensors that are not fully
+    # (anti)symmetric: the symmetry group contains products of three overlapping
+    # transpositions (4-cycles), whose composition order matters
+    for _ in range(14 * mult):
+        letters = r.choice(['ijkl', 'abcd', 'klmn', 'cdef'])
+        w, x, y, z = r.sample(list(letters), 4)
+        shape = r.choice(['bk22', 'bk22', 'prod', 'prod2', 'non4'])
+        if shape == 'bk22':
+            objs = [{'t': r.choice(['anti', 'sym']), 'name': r.choice('Vd'),
+                     'up': [w, x], 'lo': [y, z], 'bk': r.choice([1, 1, -1])}]
+        elif shape == 'prod':
+            objs = [{'t': 'anti', 'name': 'f', 'up': [w], 'lo': [x], 'bk': 1},
+                    {'t': 'anti', 'name': 'f', 'up': [y], 'lo': [z], 'bk': 1}]
+        elif shape == 'prod2':
+            objs = [{'t': 'non', 'name': 'x', 'up': [w, x]},
+                    {'t': 'non', 'name': 'x', 'up': [y, z]}]
+        else:
+            objs = [{'t': 'non', 'name': 'x', 'up': [w, x, y, z]}]
+        cases.append({'id': f'C10-{tier[0]}{seed}-{k:05d}-sym4', 'kind': 'sym',
+                      'term': {'pref': r.choice(['1', '1/4', '-2']),
+                               'objs': objs},
+                      'spin': False, 'mode': r.choice(['all', 'target']),
+                      'timeout': 90, 'mseed': r.randrange(1 << 30)})
+        k += 1
     # (b) exploit_perm_sym, (d) term maps
     for _ in range(420 * mult):
         g = ExprGen(r, cat, general=0.0, exponents=0.0, hyper=0.0, symbols=0.05,
